@@ -344,7 +344,7 @@ func TestVerifC52(t *testing.T) {
 	maxLen := r.Pick(2, 3)
 	methods := []string{"GET", "OPTIONS"}
 	if r.Thorough() {
-		methods = append(methods, "POST", "HEAD")
+		methods = append(methods, "POST")
 	}
 	acrms := []string{"", "PUT", "FOO", "put"}
 	hosts := []string{"h1.example", "h2.example"}
